@@ -149,6 +149,19 @@ Theorem C17_dual_rhombus : forall g i j li lj Ps q00 q10 q11 q01,
 Proof. exact dual_rhombus. Qed.
 Print Assumptions C17_dual_rhombus.
 
+(* without unit vectors: equal star lengths |e_i| = |e_j| already give four equal sides *)
+Theorem C17_dual_rhombus_equal_sides : forall g i j li lj Ps q00 q10 q11 q01,
+  length (g_normals g) = n_bundles g -> (i < n_bundles g)%nat -> (j < n_bundles g)%nat -> i <> j ->
+  qv_norm2 (grad g i) == qv_norm2 (grad g j) ->
+  in_cell g i j li lj Ps 0 0 q00 -> in_cell g i j li lj Ps 1 0 q10 ->
+  in_cell g i j li lj Ps 1 1 q11 -> in_cell g i j li lj Ps 0 1 q01 ->
+  let V := dual_vertex g in
+  let l2 := qv_norm2 (grad g i) in
+  qv_norm2 (qv_sub (V q10) (V q00)) == l2 /\ qv_norm2 (qv_sub (V q11) (V q10)) == l2 /\
+  qv_norm2 (qv_sub (V q01) (V q11)) == l2 /\ qv_norm2 (qv_sub (V q00) (V q01)) == l2.
+Proof. exact dual_rhombus_equal_sides. Qed.
+Print Assumptions C17_dual_rhombus_equal_sides.
+
 (* index-level certificate run on every face of every generated tiling: if the four index vectors met around a face are
    K, K + s e_i, K + s e_i + t e_j, K + t e_j (i <> j, s, t = +-1) then the four positions map_to_position gives form a
    parallelogram with sides exactly s*star_i and t*star_j *)
